@@ -217,6 +217,21 @@ def rpat(p):
     return "<pat?%s>" % p.get("what", "")
 
 
+def pat_nodes(p):
+    """All sub-patterns of a pattern (pre-order)."""
+    if not isinstance(p, dict):
+        return
+    yield p
+    for x in p.get("pats", []) or []:
+        yield from pat_nodes(x)
+    for f in p.get("fields", []) or []:
+        yield from pat_nodes(f.get("pat"))
+    if isinstance(p.get("pat"), dict):
+        yield from pat_nodes(p["pat"])
+    if isinstance(p.get("sub"), dict):
+        yield from pat_nodes(p["sub"])
+
+
 def render(n, depth=0):
     """Normalised source-like rendering (single line)."""
     if n is None:
